@@ -1,13 +1,44 @@
-"""Matchers for known findings of the tzfile area."""
+"""Matchers for the open findings of the tzfile area (narrow: each accepts only its own class)."""
+
+
+def _no_exception(payload):
+    d = payload.get("detail") or payload.get("input") or {}
+    return d.get("why") != "exception" and "exception" not in str(payload.get("kind", ""))
+
+
+def short_regime(payload):
+    """F-C0x-short-regime (audit A1): a zone OUTSIDE wf_zone (an offset regime shorter than the repeated
+    interval / gap at one of its ends), at a wall time that still has at most two UTC pre-images, answers
+    wrongly (tzfile.is_ambiguous has no lower bound on how long the old offset lasted).  Only payloads the
+    driver marked outside_wf_zone with preimages_of_wall <= 2, and no exceptions."""
+    i = payload.get("input") or {}
+    return (i.get("outside_wf_zone") is True and isinstance(i.get("preimages_of_wall"), int)
+            and i["preimages_of_wall"] <= 2 and _no_exception(payload)
+            and str(payload.get("kind", "")).startswith(("property: ", "two instants map", "implementation differs from the executable",
+                                                         "fromutc sets fold", "tzfile does not report", "offset/abbreviation reported")))
+
+
+def after_last_transition(payload):
+    """F-C04-after-last-transition / F-C06-last-transition (audit A2): from the last transition of the
+    version-1 data on, tzfile applies ttinfo_std instead of the type of that transition."""
+    i = payload.get("input") or {}
+    return (i.get("after_last") is True and isinstance(i.get("u"), int) and isinstance(i.get("last_transition"), int)
+            and i["u"] >= i["last_transition"]
+            and str(payload.get("kind", "")).startswith("property: from the last transition on"))
 
 
 def tzical_std_offset_change(payload):
-    """F-C04-tzical-std-change: an iCalendar zone whose STANDARD offset changes; instants within the size
-    of that change of the change are converted with the wrong offset (generic _tzinfo._fromutc assumes
-    utcoffset() - dst() constant).  Only payloads of the era-boundary sub-stream (near_std_change)."""
+    """F-C04/C05-tzical-std-change: an iCalendar zone whose STANDARD offset changes; instants / wall times
+    within max(|old offset|, |new offset|, |change|) of the change are converted with the wrong offset (generic _tzinfo._fromutc assumes
+    utcoffset() - dst() constant).  Only the era-boundary sub-stream, only wrong answers (no exceptions),
+    only within that window."""
     i = payload.get("input") or {}
-    return (payload.get("kind", "").startswith("property (generated zone): next to a change of the zone's standard offset")
-            and i.get("near_std_change") is True and str(i.get("zone", "")).startswith("tzical:multi-era"))
+    return (str(payload.get("kind", "")).startswith("property (generated zone): next to a change of the zone's standard offset")
+            and i.get("near_std_change") is True and str(i.get("zone", "")).startswith("tzical:multi-era")
+            and all(isinstance(i.get(k), int) for k in ("distance", "old_offset", "new_offset"))
+            and abs(i["distance"]) <= max(abs(i["old_offset"]), abs(i["new_offset"]), abs(i["new_offset"] - i["old_offset"]))
+            and i.get("impl_ok") is True)
 
 
-MATCHERS = {"tzical_std_offset_change": tzical_std_offset_change}
+MATCHERS = {"short_regime": short_regime, "after_last_transition": after_last_transition,
+            "tzical_std_offset_change": tzical_std_offset_change}
